@@ -242,6 +242,8 @@ class Interp:
   def p_rsqrt(self, e, i): return vec(lambda a: self.D.s_div(1, self.sqrt(a)), *i)
   def p_exp(self, e, i): return vec(lambda a: R.EXP(R.canon(a)), *i)
   def p_log(self, e, i): return vec(lambda a: R.LOG(R.canon(a)), *i)
+  def p_log1p(self, e, i): return vec(lambda a: R.LOG(R.canon(R.s_add(a, Fraction(1)))), *i)
+  def p_expm1(self, e, i): return vec(lambda a: R.s_sub(R.EXP(R.canon(a)), Fraction(1)), *i)
 
   def sqrt(self, a):
     if not is_z3(a):
